@@ -34,9 +34,22 @@ books again (`n2`, `b2`).  answers additionally: err.
 
   dstress …  -> oracle-only     (free-running DynamicContainer stress round of the harness: no
                                  model, the line only keeps request and answer streams aligned)
+
+MultiLayerCacheImpl over two MemoryCache layers under the controller (Model/MultiConc):
+
+  mlrun layers=mm pre=<ops> t=<ops>|<ops>[|<ops>] s=<digits>
+  -> pre=<answers> r=<answers>|… tr=<sites>/<drain> l0=<entry_count>/<memory_usage>/<contents>
+     l1=<entry_count>/<memory_usage>/<contents> tk=<keys with a promotion tracker>
+
+ops: g<k> c<k> r<k> z as above, p<k>:<hex> put, u<k>:<hex> put_to_layer(k, v, 0), l<k>:<hex>
+put_to_layer(k, v, 1).  Both layers: max_entries 1000, no byte limit, LRU, long default TTL.
+Sites: the layer's own letter inside a per-layer call, I / J / N / R / Z = returned from the
+layer's get / put / contains / remove / clear (`ml.layer.after_<op>`).
+  mlrun layers=md …  -> oracle-only   (memory above disk: not modelled)
 -/
 import Driver.Common
 import Cascette.Model.MemConc
+import Cascette.Model.MultiConc
 import Cascette.Model.DiskConc
 import Cascette.Model.Path
 open Cascette Drv
@@ -232,9 +245,114 @@ def handle (keys pre ts sc : String) : String :=
 
 end DiskDrv
 
+/-! ## MultiLayerCacheImpl -/
+
+namespace MlDrv
+open Cascette.Model.MultiConc
+
+def parseOp (t : String) : Option MOp :=
+  match t.toList with
+  | 'g' :: r => (String.ofList r).toNat?.map .get
+  | 'c' :: r => (String.ofList r).toNat?.map .contains
+  | 'r' :: r => (String.ofList r).toNat?.map .remove
+  | ['z'] => some .clear
+  | c :: r =>
+    if c = 'p' ∨ c = 'u' ∨ c = 'l' then
+      match (String.ofList r).splitOn ":" with
+      | [k, h] =>
+        match k.toNat?, parseHexNat h with
+        | some k, some v => some (if c = 'p' then .put k v else .putTo k v (if c = 'u' then 0 else 1))
+        | _, _ => none
+      | _ => none
+    else none
+  | [] => none
+
+def opKey : MOp → Nat
+  | .get k => k | .contains k => k | .put k _ => k | .remove k => k | .clear => 0 | .putTo k _ _ => k
+
+def parseOps (s : String) : Option (List MOp) :=
+  if s == "-" then some [] else
+  (s.splitOn ",").foldr (fun t acc => match parseOp t, acc with
+    | some o, some l => some (o :: l)
+    | _, _ => none) (some [])
+
+def parseProgs (s : String) : Option (List (List MOp)) :=
+  (s.splitOn "|").foldr (fun t acc => match parseOps t, acc with
+    | some o, some l => some (o :: l)
+    | _, _ => none) (some [])
+
+def showOut : MOut → String
+  | .val (some v) => "v" ++ hexOfNats v
+  | .val none => "none"
+  | .bool true => "t"
+  | .bool false => "f"
+  | .unit => "ok"
+  | .badLayer => "err"
+
+def showResults (t : MThread) : String :=
+  if t.results.isEmpty then "-" else ",".intercalate (t.results.map (fun r => showOut r.2))
+
+def siteAt (y : Sys MState MThread Unit) (i : Nat) : Char :=
+  match y.threads[i]? with
+  | some t => t.site
+  | none => '?'
+
+def showLayer (s : MemCache.State) : String :=
+  toString (wrap s.count) ++ "/" ++ toString (wrap s.bytes) ++ "/" ++ showStore s.store
+
+def finish (m : Machine MState MThread Unit) :
+    Nat → Sys MState MThread Unit → List Char → Sys MState MThread Unit × List Char
+  | 0, y, acc => (y, acc)
+  | f + 1, y, acc =>
+    match firstLive m y.threads 0 with
+    | none => (y, acc)
+    | some i =>
+      let y' := stepAt m y i
+      finish m f y' (siteAt y' i :: Char.ofNat ('0'.toNat + i) :: acc)
+
+/-- the configuration of both layers of the run -/
+def cfg : MemCache.Config := { maxEntries := 1000, maxBytes := none, policy := .lru, defaultShort := false }
+
+def handle (pre ts sc : String) : String :=
+  match parseOps pre, parseProgs ts, parseSched sc with
+  | some pre, some progs, some sched =>
+    -- the harness uses keys 0..3
+    if progs.length > 9 ∨ (pre :: progs).any (fun p => p.any (fun op => decide (opKey op ≥ 4))) then "bad-op" else
+    let m := MultiConc.machine cfg (detVic cfg)
+    let y0 := (drain m 100000 (MultiConc.sys (MultiConc.init 2) [pre])).1
+    let preT := match y0.threads with | t :: _ => showResults t | [] => "-"
+    let y1 := MultiConc.sys y0.shared progs
+    let (y2, tr) := sched.foldl (fun (acc : Sys MState MThread Unit × List Char) i =>
+      match acc.1.threads[i]? with
+      | none => (acc.1, '-' :: acc.2)
+      | some t =>
+        if t.done then (acc.1, '-' :: acc.2) else
+        let y' := stepAt m acc.1 i
+        (y', siteAt y' i :: acc.2)) (y1, [])
+    let (y3, dr) := finish m 100000 y2 []
+    let s := y3.shared
+    let lays := (List.range s.layers.length).zip s.layers
+    "pre=" ++ preT ++ " r=" ++ "|".intercalate (y3.threads.map showResults) ++
+      " tr=" ++ String.ofList tr.reverse ++ "/" ++ String.ofList dr.reverse ++
+      String.join (lays.map (fun p => " l" ++ toString p.1 ++ "=" ++ showLayer p.2)) ++
+      " tk=" ++ toString s.tracked.length
+  | _, _, _ => "bad-op"
+
+end MlDrv
+
 def handle (toks : List String) : String :=
   match toks with
   | "dstress" :: _ => "oracle-only"
+  | ["mlrun", lay, pre, ts, sc] =>
+    match kv "layers=" lay, kv "pre=" pre, kv "t=" ts, kv "s=" sc with
+    | some "md", some pre, some ts, some sc =>
+      match MlDrv.parseOps pre, MlDrv.parseProgs ts, parseSched sc with
+      | some pre, some progs, some _ =>
+        if progs.length > 9 ∨ (pre :: progs).any (fun p => p.any (fun op => decide (MlDrv.opKey op ≥ 4))) then "bad-op"
+        else "oracle-only"
+      | _, _, _ => "bad-op"
+    | some "mm", some pre, some ts, some sc => MlDrv.handle pre ts sc
+    | _, _, _, _ => "bad-op"
   | ["drun", keys, pre, ts, sc] =>
     match kv "keys=" keys, kv "pre=" pre, kv "t=" ts, kv "s=" sc with
     | some keys, some pre, some ts, some sc => DiskDrv.handle keys pre ts sc
